@@ -57,6 +57,19 @@ PROPS['C02'] = {
                  'conformance of whole frames: bounded differential check against an independent implementation',
 }
 
+PROPS['C12'] = {
+    'sidecars': ['contracts/C12_locks.py'],
+    'level': 'proof',
+    'explanation': 'Exceptional postconditions ("on every exit, normal or by any exception of the callee") discharged for the functions '
+                   'that hold a lock across a call into a neighbouring layer: YowLayer.toLower, YowNoiseLayer._flush_incoming_buffer, '
+                   'YowIqProtocolLayer.gotPong / waitPong: the lock is free again on every exit, the callee exception reaches the caller. '
+                   'Decides the sequential conjuncts of C12 only: "no lock stays held", "error reported to the caller"; other-thread '
+                   'follow-ups and "nothing blocks forever" as a liveness claim are not decided (no thread model).',
+    'assumptions': ['threading.Lock: assumed sequential contract (acquire requires not held by this thread, release requires held)',
+                    'queue.Queue.qsize, WANoiseProtocol.receive, the neighbouring layers: opaque events that may raise anything',
+                    'termination of the flush loop is not proved (partial correctness), stated in trusted_base'],
+}
+
 NOT_APPLICABLE = {
     'C11': 'quantifies over thread interleavings (2-4 sender threads through lock/queue operations); no verifier available here '
            'has a thread or permission model and sequential contracts cannot express "for every schedule" (DESIGN.md section 8)',
